@@ -46,4 +46,21 @@ MUTANTS = {
         ('recv_no_flag_check_32', [('librfn/messageq.c', "	if (0 == (full_flags & (1 << receivep)))", "	if (0 == (full_flags & (1 << (receivep & 15))))")]),
         ('send_u8_offset', [('librfn/messageq.c', "	unsigned int offset = (((char *) msg) - mq->basep);", "	unsigned short offset = (((char *) msg) - mq->basep);")]),
     ],
+    'C19': [
+        ('table_entry_moved', [('librfn/rotenc.c', "	case FROM(1, 0) | TO(0, 0):\n		r->internal_count++;", "		r->internal_count++;"), ('librfn/rotenc.c', "	case FROM(0, 1) | TO(0, 0):\n		r->internal_count--;", "	case FROM(0, 1) | TO(0, 0):\n	case FROM(1, 0) | TO(0, 0):\n		r->internal_count--;")]),
+        ('latch_on_state3', [('librfn/rotenc.c', "	if (!state)\n", "	if (state == 3)\n")]),
+        ('f9_reintroduced', [('librfn/rotenc.c', "	return r->count;", "	return ((r->internal_count >> 2) & 0x3f00) + (r->count & 0xff);")]),
+        ('count_shift3', [('librfn/rotenc.c', "		r->count = r->internal_count >> 2;", "		r->count = (r->internal_count + 1) >> 2;")]),
+        ('count14_mask', [('librfn/rotenc.c', "	return r->count;", "	return r->count & 0x1fff;")]),
+        ('invalid_jump_counts', [('librfn/rotenc.c', "	case FROM(0, 0) | TO(0, 1):", "	case FROM(0, 1) | TO(1, 0):\n	case FROM(0, 0) | TO(0, 1):")]),
+    ],
+    'C20': [
+        ('fold_255', [('librfn/mlog.c', "		log.head -= lengthof(log.line);", "		log.head -= lengthof(log.line) - 1;")]),
+        ('getline_gt', [('librfn/mlog.c', "	if (n >= log.head || n >= lengthof(log.line))", "	if (n > log.head || n >= lengthof(log.line))")]),
+        ('nice_le', [('librfn/mlog.c', "	if (log.head < lengthof(log.line))\n		vmlog(fmt, ap);", "	if (log.head <= lengthof(log.line))\n		vmlog(fmt, ap);")]),
+        ('slot_from_incremented_head', [('librfn/mlog.c', "	unsigned int head = log.head % lengthof(log.line);\n	", "	unsigned int head = (log.head + 1) % lengthof(log.line);\n	")]),
+        ('fold_threshold_wrong', [('librfn/mlog.c', "	if (log.head >= 0x7fffffff)\n		log.head -= lengthof(log.line);", "	if (log.head >= 0x7fffffff)\n		log.head = lengthof(log.line);")]),
+        ('wrap_adjust_gt', [('librfn/mlog.c', "	if (log.head >= lengthof(log.line))\n		n += log.head;", "	if (log.head > lengthof(log.line))\n		n += log.head;")]),
+        ('third_arg_lost', [('librfn/mlog.c', "	log.line[head].arg[2] = va_arg(ap, uintptr_t);", "	log.line[head].arg[2] = 0;")]),
+    ],
 }
